@@ -271,12 +271,49 @@ def r5_accumulate(run, F, D):
     run.floor("R5-E140-CONDITION", 3)
 
 
+def r4b_payload_table(run, F):
+    """Every value-carrying token owns the payload entry it was given: push_integer_payload appends on every path that
+    returns Ok, and the id it returns is the length of the table before that append (id 0 is the `no payload` sentinel
+    that Tokens::empty puts at index 0, so handing out an existing index can alias it)."""
+    cands = [x for p, x in F.lib.bodies.items() if p.endswith("TokensBuffer::push_integer_payload")]
+    run.require(len(cands) == 1, "TokensBuffer::push_integer_payload not found")
+    b = cands[0]
+    cfg = mirq.CFG(b)
+    dom = cfg.dom()
+    pushes = [u for u, t in cfg.calls() if (mirq.call_target(t) or "").endswith("Vec::push")]
+    oks = []
+    ids = []
+    for i in sorted(cfg.reach):
+        for st in cfg.blocks[i]["s"]:
+            r = st["r"]
+            if r.get("k") == "Agg" and str(r.get("adt", "")).endswith("result::Result") and r.get("variant") == "Ok" and st["d"] == 0:
+                oks.append(i)
+            if r.get("k") == "Agg" and str(r.get("adt", "")).endswith("PayloadId"):
+                ids.append(i)
+    ok = bool(oks) and len(pushes) == 1 and all(pushes[0] in dom[o] and pushes[0] != o or pushes[0] in dom[o] for o in oks)
+    run.ob("R4-PAYLOAD-APPENDED", "push_integer_payload", ok and len(ids) == 1, F.where(b),
+           "every Ok return is dominated by integer_payloads.push(payload) and there is one PayloadId construction: "
+           "Ok blocks %s, push blocks %s, PayloadId blocks %s" % (oks, pushes, ids))
+    lens = [u for u, t in cfg.calls() if (mirq.call_target(t) or "").endswith("Vec::len")]
+    ok2 = len(lens) == 1 and len(pushes) == 1 and lens[0] in dom[pushes[0]] and all(lens[0] in dom[i] for i in ids)
+    du = mirq.DefUse(cfg)
+    src_ok = False
+    for i in ids:
+        for st in cfg.blocks[i]["s"]:
+            if st["r"].get("k") == "Agg" and str(st["r"].get("adt", "")).endswith("PayloadId"):
+                srcs = du.sources(st["r"]["ops"][0])
+                src_ok = any(k == "call" and (mirq.call_target(x) or "").endswith("Vec::len") for k, x in srcs)
+    run.ob("R4-PAYLOAD-APPENDED", "id = len before push", ok2 and src_ok, F.where(b),
+           "the returned id is integer_payloads.len() read before the append (sources of the id: len() call %s)" % src_ok)
+
+
 def check(run):
     F = run.facts("A")
     A, D = r1_tables(run, F)
     r2_span_balance(run, F)
     r3_lines(run, F, D)
     r4_payload(run, F, D)
+    r4b_payload_table(run, F)
     r5_accumulate(run, F, D)
     r6_digit_evidence(run, F, D)
     run.assume("alpha never sees '\\n' or a '\\r' directly before it: str::lines() strips them (C13.R4 checks the offset bookkeeping)")
